@@ -91,7 +91,40 @@ fn base_histories(rng: &mut Rng, n: usize) -> Vec<History> {
             v.push(shape::subset_history(&p, 0, mask, 3));
         }
     }
+    v.push(freelist_reopen_history());
     v
+}
+
+/// A free list of more than a thousand entries (several pages at the small page sizes) that is
+/// written, read back by a reopen, rewritten by small commits and consumed again.
+fn freelist_reopen_history() -> History {
+    let put = |h: H, j: usize, tag: u64, len: usize| Op::Put { h, k: K { pre: format!("fl{:05}", j).into_bytes(), fill: 4, post: vec![] }, v: V { tag, len }, how: How::Slice, vhow: How::Slice };
+    let small = |tag: u64| TxScript { ops: vec![Op::TxGetOrCreate { k: K::lit(b"keep"), how: How::Slice }, put(0, (tag % 7) as usize, tag, 40 + (tag % 5) as usize * 100)], end: End::Commit, reopen: false };
+    let mut txs = Vec::new();
+    let mut ops = vec![Op::TxCreate { k: K::lit(b"bulk"), how: How::Slice }];
+    for j in 0..450 {
+        ops.push(put(0, j, 100 + j as u64, 9 * 1024 + (j % 3) * 700));
+    }
+    txs.push(TxScript { ops, end: End::Commit, reopen: false });
+    txs.push(small(1));
+    txs.push(TxScript { ops: vec![Op::TxDelete { k: K::lit(b"bulk"), how: How::Slice }], end: End::Commit, reopen: true });
+    txs.push(small(2));
+    let mut t = small(3);
+    t.reopen = true;
+    txs.push(t);
+    txs.push(small(4));
+    let mut ops = vec![Op::TxCreate { k: K::lit(b"bulk"), how: How::Slice }];
+    for j in 0..200 {
+        ops.push(put(0, j, 5000 + j as u64, 9 * 1024));
+    }
+    txs.push(TxScript { ops, end: End::Commit, reopen: true });
+    txs.push(small(5));
+    txs.push(TxScript { ops: vec![Op::TxDelete { k: K::lit(b"bulk"), how: How::Slice }], end: End::Commit, reopen: false });
+    let mut t = small(6);
+    t.reopen = true;
+    txs.push(t);
+    txs.push(small(7));
+    History { pagesize: 1024, num_pages: 8, strict: false, populate: false, txs, origin: "free list of >1000 entries across reopen".into() }
 }
 
 /// growth run: from the minimum file through several 8 MiB extension steps
